@@ -2,9 +2,6 @@ package main
 
 import "verif/internal/harness"
 
-func runReadBound(b *harness.B)         {}
-func runErrorDelivery(b *harness.B)     {}
-func runCallerLimits(b *harness.B)      {}
 func runTransports(b *harness.B, tcp bool) {}
 func runTamper(b *harness.B)            {}
 func runHandshakeMismatch(b *harness.B) {}
